@@ -1,4 +1,4 @@
 SPECIFICATION Spec
-CONSTANTS FixZ1=TRUE FixQ1=TRUE Procs={"syncdb","syncdb2","disable","snap","enable"}
-INVARIANTS LocksFree NoDeadlock NoLeakAfterClose ReadLockWhileOpen
+CONSTANTS FixZ1=TRUE FixQ1=TRUE FixR=TRUE Procs={"syncdb","syncdb2","disable","snap","enable","compact"}
+INVARIANTS LocksFree NoDeadlock NoLeakAfterClose ReadLockWhileOpen NoDataRace
 CHECK_DEADLOCK FALSE
